@@ -9,6 +9,7 @@
 #include <fstream>
 #include <new>
 #include <unistd.h>
+#include <sys/wait.h>
 static long live_blocks = 0, alloc_count = 0, fail_at = -1;
 void* operator new(size_t n){ if (alloc_count++ == fail_at) throw std::bad_alloc(); void* p = malloc(n ? n : 1); if (!p) throw std::bad_alloc(); live_blocks++; return p; }
 void* operator new[](size_t n){ return operator new(n); }
@@ -59,6 +60,9 @@ int main(int argc, char** argv){
         if (writesplinefitstable_mem(&o, &h)) fail("writesplinefitstable_mem failed"); if (readsplinefitstable_mem(&b, &h) == 0) fail("reading into an occupied handle succeeded");
         char path[] = "/var/tmp/psreplay_XXXXXX"; int fd = mkstemp(path); close(fd); if (writesplinefitstable(path, &h)) fail("writesplinefitstable failed"); splinetable g = {nullptr}; if (readsplinefitstable(path, &g)) fail("readsplinefitstable failed"); else if (!(*(ST*)g.data == t)) fail("file written through the C interface differs"); splinetable_free(&g); unlink(path);
         if (readsplinefitstable("/nonexistent/x.fits", &g) == 0) fail("reading a missing file reported success"); splinetable_free(&g);
+        // failing read into an occupied handle, then free (in a child: a double free aborts)
+        { fflush(stdout); pid_t pc = fork(); if (pc == 0) { splinetable q = {nullptr}; splinetable_buffer b2 = {mb.first, mb.second}; splinetable_init(&q); readsplinefitstable_mem(&b2, &q); readsplinefitstable("/nonexistent/x.fits", &q); splinetable_free(&q); splinetable_free(&q); _exit(0); }
+          int st = 0; waitpid(pc, &st, 0); if (WIFSIGNALED(st)) fail("a failing readsplinefitstable into an occupied handle followed by splinetable_free crashed (signal " + std::to_string(WTERMSIG(st)) + "): the handle kept a pointer to the destroyed table"); }
       } catch (std::exception& e) { fail(std::string("exception left the C interface: ") + e.what()); }
       splinetable_free(&h); splinetable_free(&h); free(o.data); free(mb.first);
       if (live_blocks != before) fail("blocks allocated through the C interface and not released: " + std::to_string(live_blocks - before)); }
